@@ -6,7 +6,7 @@ From DC Require Import BitMap.Model.
 From DC Require Window.Model.
 From DC Require Grid.Model.
 From DC Require Adjustable.Model.
-From DC Require Graph.UltraGraph Graph.Spec.
+From DC Require Graph.UltraGraph Graph.Spec Graph.ShortestPath.
 
 Extraction Language OCaml.
 
@@ -18,4 +18,4 @@ Extraction "model.ml"
   Window.Model.window_model_entry Window.Model.window_spec_entry
   Grid.Model.grid_model_entry Grid.Model.grid_spec_entry
   Adjustable.Model.adjustable_model_entry Adjustable.Model.adjustable_check_entry
-  Graph.UltraGraph.ugraph_model_entry Graph.Spec.ugraph_check_entry.
+  Graph.UltraGraph.ugraph_model_entry Graph.Spec.ugraph_check_entry Graph.ShortestPath.spath_check_entry.
